@@ -152,13 +152,16 @@ def corpus_transform_job(indices: list[int], transforms: list[str]) -> list[dict
             # reference evaluation must not share a trace cache entry with the export (or vice versa)
             return lambda *a: _fn(*a)
 
+        # the second batch entry: a scaled copy for testcases the project itself feeds with arbitrary
+        # draws (input_shapes); an identical copy where the author's values encode a domain (input_values)
+        k2 = 0.5 if tp.get("input_values") is None else 1.0
         for tr in transforms:
             pr: dict[str, Any] = {}
             warm = False
             try:
                 if tr == "vmap":
                     mk = lambda: jax.vmap(fresh())  # noqa: E731
-                    txs = [np.stack([x, x * (0.5 if np.asarray(x).dtype.kind == "f" else 1)]) for x in xs]
+                    txs = [np.stack([x, x * (k2 if np.asarray(x).dtype.kind == "f" else 1)]) for x in xs]
                 elif tr in ("vmap1", "vmap_last"):
                     # batch dimension in the middle / at the end of every operand
                     if any(np.asarray(x).ndim < 1 for x in xs):
@@ -167,7 +170,7 @@ def corpus_transform_job(indices: list[int], transforms: list[str]) -> list[dict
                         continue
                     ax = 1 if tr == "vmap1" else -1
                     mk = lambda _ax=ax: jax.vmap(fresh(), in_axes=_ax, out_axes=0)  # noqa: E731
-                    txs = [np.stack([x, x * (0.5 if np.asarray(x).dtype.kind == "f" else 1)], axis=(1 if tr == "vmap1" else np.asarray(x).ndim)) for x in xs]
+                    txs = [np.stack([x, x * (k2 if np.asarray(x).dtype.kind == "f" else 1)], axis=(1 if tr == "vmap1" else np.asarray(x).ndim)) for x in xs]
                 elif tr == "jit":
                     mk = lambda: jax.jit(fresh())  # noqa: E731
                     txs = xs
@@ -240,8 +243,10 @@ def corpus_transform_job(indices: list[int], transforms: list[str]) -> list[dict
                 rec["per_transform"][tr] = pr
                 continue
             pr["status"] = "compared"
-            rtol = float(tp.get("rtol", 1e-7 if double else 3e-5))
-            atol = float(tp.get("atol", 1e-7 if double else 3e-5))
+            from harness.diffjobs import _tolerances
+
+            rtol, atol = _tolerances(tp, double)
+            rtol, atol = max(rtol, 1e-7 if double else 3e-5), max(atol, 1e-7 if double else 3e-5)
             if len(got) != len(ref):
                 pr["problem"] = f"output count {len(ref)} vs {len(got)}"
             else:
